@@ -123,3 +123,8 @@ package lock
 //@   ensures[C03] mw_blocks: each Next.ServeHTTP(_, _, _, ?cu) => cu != nil && (before Now() -> ?t :: Locked(cu) <= t)
 //@   ensures[C03] mw_redirects: (!panics && !emits Next.ServeHTTP(_, _, _)) ==> emits Redirect(?ro) :: ro.Code == 307
 //@   ensures[C18] no_panic: !panics
+//
+//@ func Middleware#1
+//@   property C03
+//@   -- the handler that is returned guards exactly the handler that was passed in
+//@   ensures guards_given_handler: bound(result, "next") == next && bound(result, "ab") == ab
